@@ -6,7 +6,7 @@ use xplore::*;
 
 const KX: [f64; 9] = [1.0, 0.5, 2.0, 7.5, 1e-3, 1e3, 1e7, 3e8, 1.0007];
 const KY: [f64; 3] = [0.0, 2.0, -1e3];
-const AB: [f64; 15] = [0.25, 0.5, 1.0, 2.0, 3.0, 10.0, 1e-3, 1e-6, 1e3, 1e7, 3e8, 1.0007, 0.9995, 5e-11, 1e-17];
+const AB: [f64; 18] = [0.25, 0.5, 1.0, 2.0, 3.0, 10.0, 1e-3, 1e-6, 1e3, 1e7, 3e8, 1.0007, 0.9995, 5e-11, 1e-17, 1e150, 2e150, 1e200];
 const CUBE: [f64; 3] = [0.0, 1.0, -0.5];
 const LANE_ID: [f64; 9] = [1.5, -2.25, 3.125, -4.0625, 5.5, -6.75, 7.875, -8.9375, 9.96875];
 
@@ -209,7 +209,7 @@ pub fn check(thorough: bool, _seed: u64) -> Check {
             by_degree!(d, leaf(&c, knot, a, b, cx))
         }),
         classes: vec![("quartic_special_form", true), ("generic_form", true)],
-        bounds: json!({"degrees": "0..8", "coefficients": "as in phase knots", "(a,b)": "all ordered pairs of distinct values from {0.25,0.5,1,2,3,10,1e-3,1e-6,1e3,1e7,3e8,1.0007,0.9995,5e-11,1e-17}", "knot": "(2,5)",
+        bounds: json!({"degrees": "0..8", "coefficients": "as in phase knots", "(a,b)": "all ordered pairs of distinct values from {0.25,0.5,1,2,3,10,1e-3,1e-6,1e3,1e7,3e8,1.0007,0.9995,5e-11,1e-17,1e150,2e150,1e200}", "knot": "(2,5)",
             "oracle": "exact q from q_n=p_n, q_i=p_i-(i+1)q_(i+1); G(t)=t*q(L), L=ln t as f64; tolerance 2^-40*sum Qbar_i(a|L_a|^i+b|L_b|^i) + 2 ulp(L) sensitivity"}),
     };
     Check {
